@@ -40,6 +40,8 @@ package keeper
 //@ define liveRate(ctx) := ite(k.GetRedemptionRate(ctx) == 0, dec(1), k.GetRedemptionRate(ctx))
 
 //@ func (msgServer).Bond
+//@ forall d Str
+//@ mints C15/bond-mints-only-vault-shares: d == types.GetShareDenom()
 //@ decabstract
 //@ requires msg.Amount >= 0
 //@ requires unbech32(msg.Creator) != modAddr("stablestake")
@@ -51,6 +53,8 @@ package keeper
 //@ ensures C07/shares-go-to-depositor: err == nil ==> committedOf(keeperOf("commitment").GetCommitments(goCtx, unbech32(msg.Creator)), types.GetShareDenom()) - old(committedOf(keeperOf("commitment").GetCommitments(goCtx, unbech32(msg.Creator)), types.GetShareDenom())) == supply(goCtx, types.GetShareDenom()) - old(supply(goCtx, types.GetShareDenom()))
 
 //@ func (msgServer).Unbond
+//@ forall d Str
+//@ burns C15/unbond-burns-only-vault-shares: d == types.GetShareDenom()
 //@ decabstract
 //@ requires msg.Amount >= 0
 //@ requires unbech32(msg.Creator) != modAddr("stablestake")
